@@ -261,9 +261,97 @@ def gen_navigate(path):
     return py2coq.Translator(cfg).function(fn)
 
 
+# ---- URL.from_parts ---------------------------------------------------------------------------
+class _PrepFromParts(ast.NodeTransformer):
+    """ret -> self (the object under construction); `tuple(x) or ('',)` -> or_list(x, ['']);
+    tuples -> lists."""
+
+    def visit_Name(self, node):
+        if node.id == "ret":
+            return ast.Name(id="self", ctx=node.ctx)
+        return node
+
+    def visit_Tuple(self, node):
+        return ast.List(elts=[self.visit(e) for e in node.elts], ctx=node.ctx)
+
+    def visit_BoolOp(self, node):
+        if isinstance(node.op, ast.Or) and len(node.values) == 2:
+            return ast.Call(func=ast.Name(id="or_list", ctx=ast.Load()),
+                            args=[self.visit(node.values[0]), self.visit(node.values[1])], keywords=[])
+        raise Unsupported("boolean operator in from_parts")
+
+
+def shape_query_update(T, s, probe, scope=None):
+    """self.query_params.update(x)"""
+    if not (isinstance(s, ast.Expr) and isinstance(s.value, ast.Call) and isinstance(s.value.func, ast.Attribute)
+            and s.value.func.attr == "update"):
+        return None
+    c = s.value
+    tgt = c.func.value
+    if not (isinstance(tgt, ast.Attribute) and tgt.attr == "query_params" and isinstance(tgt.value, ast.Name)
+            and tgt.value.id == "self") or len(c.args) != 1 or c.keywords or T.kind(c.args[0]) != "qlist":
+        raise Unsupported("update() other than <object>.query_params.update(<pairs>)")
+    if probe:
+        return ["self"]
+    return "let self := set_query self (py_omd_update (u_query self) %s) in\n" % T.expr(c.args[0], scope)
+
+
+FROM_PARTS_PARAMS = [("scheme", "str"), ("host", "str"), ("path_parts", "list str"), ("query_params", "list (str * option str)"),
+                     ("fragment", "str"), ("port", "option N"), ("username", "str"), ("password", "str")]
+
+
+def gen_from_parts(path):
+    node = _function(path, "from_parts")
+    body = list(node.body)
+    if body and isinstance(body[0], ast.Expr) and isinstance(body[0].value, ast.Constant):
+        body = body[1:]
+    first, last = ast.parse("ret = cls()").body[0], ast.parse("return ret", mode="exec").body[0] if False else None
+    if len(body) < 3 or ast.dump(body[0]) != ast.dump(first) or not (
+            isinstance(body[-1], ast.Return) and isinstance(body[-1].value, ast.Name) and body[-1].value.id == "ret"):
+        raise Unsupported("from_parts no longer is `ret = cls(); ...; return ret`")
+    if [a.arg for a in node.args.args] != ["cls"] + [p for p, _ in FROM_PARTS_PARAMS] or node.args.vararg \
+            or node.args.kwarg or node.args.kwonlyargs:
+        raise Unsupported("parameters of from_parts changed")
+    mid = [_PrepFromParts().visit(x) for x in body[1:-1]]
+    fn = ast.FunctionDef(name="from_parts", body=mid + [ast.Return(value=None)], decorator_list=[], returns=None,
+                         type_comment=None,
+                         args=ast.arguments(posonlyargs=[], kwonlyargs=[], kw_defaults=[], defaults=[], vararg=None,
+                                            kwarg=None, args=[ast.arg(arg=a) for a in
+                                                              ["self"] + [p for p, _ in FROM_PARTS_PARAMS]]))
+    try:
+        fn.type_params = []
+    except Exception:
+        pass
+    ast.fix_missing_locations(fn)
+    calls = dict(_calls(), tuple=("", "list"), or_list=("py_or_list", "list"))
+    kinds = {"scheme": "str", "host": "str", "path_parts": "list", "query_params": "qlist", "fragment": "str",
+             "port": "port", "username": "str", "password": "str"}
+    cfg = dict(COMMON, name="src_from_parts", params=[("self", "url")] + FROM_PARTS_PARAMS, ret="url",
+               procedure=True, kinds=kinds, calls=calls, shapes=[shape_query_update])
+    return py2coq.Translator(cfg).function(fn)
+
+
+HEADER2 = """Definition set_user (u : url) (x : str) : url :=
+  mkUrl (u_scheme u) (u_sep u) x (u_pass u) (u_host u) (u_port u) (u_path u) (u_query u) (u_frag u).
+Definition set_pass (u : url) (x : str) : url :=
+  mkUrl (u_scheme u) (u_sep u) (u_user u) x (u_host u) (u_port u) (u_path u) (u_query u) (u_frag u).
+Definition set_port (u : url) (x : option N) : url :=
+  mkUrl (u_scheme u) (u_sep u) (u_user u) (u_pass u) (u_host u) x (u_path u) (u_query u) (u_frag u).
+Definition set_query (u : url) (x : list (str * option str)) : url :=
+  mkUrl (u_scheme u) (u_sep u) (u_user u) (u_pass u) (u_host u) (u_port u) (u_path u) x (u_frag u).
+Definition set_frag (u : url) (x : str) : url :=
+  mkUrl (u_scheme u) (u_sep u) (u_user u) (u_pass u) (u_host u) (u_port u) (u_path u) (u_query u) x.
+Definition py_or_list {A} (a b : list A) : list A := if nonempty a then a else b.        (* a or b *)
+(* OrderedMultiDict.update(E) for a multi-dict E: keys of E are removed from self, then every
+   (key, value) of E is added in E's order *)
+Definition py_omd_update (cur new : list (str * option str)) : list (str * option str) :=
+  filter (fun kv => negb (existsb (fun kv' => str_eqb (fst kv) (fst kv')) new)) cur ++ new.
+"""
+
+
 def generate(repo):
     path = os.path.join(repo, "boltons", "urlutils.py")
-    return {"C07_Src2": HEADER % path + gen_normalize(path) + gen_navigate(path)}
+    return {"C07_Src2": HEADER % path + HEADER2 + gen_normalize(path) + gen_from_parts(path) + gen_navigate(path)}
 
 
 if __name__ == "__main__":
